@@ -776,7 +776,7 @@ inline bool plan_effect(Model const& M, ModelTraits const& T, Op const& op, Effe
 			v = whole(M.at(0, op.a));
 		} else if(!model_view(M, T, op.da, op.a, op.ca, v)) return false;
 		if(op.var < 0 || op.var > 3) return false;
-		if(op.var == 3 && v.D < 2) return false;         // var 3 saves through a read-only view (its own serialize; 1-D does not compile at the pinned commit)
+		if(op.var == 3 && v.D < 1) return false;         // var 3 saves through a read-only view (its own serialize member; the 1-D specialisation compiles since fix 00b610f)
 		if(op.var != 1 && op.var != 3 && op.ca.n != 0) return false;  // var 0 saves the owning array itself, var 2 the same array re-indexed to base 1
 		if(v.count() == 0 && op.var == 3) return false;
 		if(op.var == 2 && (v.count() == 0 || T.static_arrays)) return false;
